@@ -92,6 +92,10 @@ func genC17(r *vh.Runner) {
 	for i := 0; i < nr; i++ {
 		r.Case(fmt.Sprintf("roam-under-writes/%d", i), map[string]any{"case": i}, func(c *vh.Case) { roamUnderWritesRun(r, c, i) })
 	}
+	nse := r.Pick(12, 300)
+	for i := 0; i < nse; i++ {
+		r.Case(fmt.Sprintf("socket-write-error/%d", i), map[string]any{"case": i}, func(c *vh.Case) { socketWriteErrorRun(r, c, i) })
+	}
 	no := r.Pick(12, 300)
 	for i := 0; i < no; i++ {
 		r.Case(fmt.Sprintf("accept-queue-overflow/%d", i), map[string]any{"case": i}, func(c *vh.Case) { acceptOverflowRun(r, c, i) })
